@@ -139,6 +139,10 @@ func apihChild() {
 		aggs = []*seqproxyapi.AggQuery{{GroupBy: "service", Func: seqproxyapi.AggFunc_AGG_FUNC_COUNT}}
 	case "pods":
 		aggs = []*seqproxyapi.AggQuery{{GroupBy: "k8s_pod", Func: seqproxyapi.AggFunc_AGG_FUNC_COUNT}}
+	case "countboth": // a client filling the legacy `field` and `group_by` at once, with different values
+		aggs = []*seqproxyapi.AggQuery{{Field: "k8s_pod", GroupBy: "service", Func: seqproxyapi.AggFunc_AGG_FUNC_COUNT}}
+	case "sumby":
+		aggs = []*seqproxyapi.AggQuery{{Field: "request_duration", GroupBy: "service", Func: seqproxyapi.AggFunc_AGG_FUNC_SUM}}
 	}
 	ord := seqproxyapi.Order(atoi(m["order"]))
 	size, offset := atoi(m["size"]), atoi(m["offset"])
@@ -238,7 +242,7 @@ func genAPIH(g gen, o vh.Opts) []string {
 		}
 		lines = append(lines, fmt.Sprintf("asyncapih docs=%s layout=%s lastActive=%s qx=%s from=%d to=%d interval=%d order=%d agg=%s size=%d offset=%d",
 			strings.Join(docs, ","), strings.Join(lay, ";"), b(g.r.Bool()), vh.Hex([]byte(query)), from, to,
-			[]int{0, 5, 10}[g.r.Intn(3)], g.r.Intn(2), []string{"none", "count", "pods"}[g.r.Intn(3)], []int{0, 1, 3, 5, 100}[g.r.Intn(5)], []int{0, 0, 0, 1, 2}[g.r.Intn(5)]))
+			[]int{0, 5, 10, 250}[g.r.Intn(4)], g.r.Intn(2), []string{"none", "count", "pods", "countboth", "sumby"}[g.r.Intn(5)], []int{0, 1, 3, 5, 100}[g.r.Intn(5)], []int{0, 0, 0, 1, 2}[g.r.Intn(5)]))
 	}
 	return lines
 }
